@@ -128,3 +128,26 @@ def attr_chain_root(node: ast.AST) -> str | None:
         else:
             break
     return node.id if isinstance(node, ast.Name) else None
+
+
+_idx_cache: dict[int, tuple[ast.AST, dict[int, list[CNode]]]] = {}
+
+
+def node_index(fn: FunctionInfo) -> dict[int, list[CNode]]:
+    """id(ast node) -> live CFG nodes whose own expression/statement (not nested bodies) contains it."""
+    from sa.reach import node_roots
+
+    k = id(fn.node)
+    hit = _idx_cache.get(k)
+    if hit is None or hit[0] is not fn.node:
+        idx: dict[int, list[CNode]] = {}
+        cfg = cfg_of(fn)
+        for n in cfg.live_nodes():
+            for root in node_roots(n):
+                if isinstance(root, (ast.FunctionDef, ast.AsyncFunctionDef, ast.ClassDef)):
+                    continue
+                for sub in ast.walk(root):
+                    idx.setdefault(id(sub), []).append(n)
+        hit = (fn.node, idx)
+        _idx_cache[k] = hit
+    return hit[1]
